@@ -127,6 +127,19 @@ Proof.
   rewrite qsum_tab_nth. apply consume_sum; [apply month_foods_nonneg; exact Hr|exact Hc].
 Qed.
 
+Lemma list_eq_tab (l : list Q) : l = tab (List.length l) (fun m => nth m l 0).
+Proof.
+  apply nth_ext with (d := 0) (d' := 0); [now rewrite tab_length|].
+  intros n Hn. now rewrite nth_tab.
+Qed.
+
+Lemma column_as_handoff cap r N j :
+  column (min_needs_rows cap r N) j = tab N (fun m => handoff cap r N j m).
+Proof.
+  rewrite (list_eq_tab (column (min_needs_rows cap r N) j)) at 1.
+  unfold column at 1, min_needs_rows at 1. rewrite !map_length, seq_length. reflexivity.
+Qed.
+
 Lemma min_needs_ok_inv K T pf Kc N r d : min_needs K T pf Kc N r = Ok d ->
   d = combine (map fst order_table) (map (column (min_needs_rows (needs_cap K T pf) r N)) (seq 0 9)).
 Proof.
